@@ -50,6 +50,7 @@ type childLog struct {
 }
 
 func (r *Run) Hit(k string) {
+	tick() // watchdog.go
 	r.Run.Hit(k)
 	if r.log != nil {
 		r.log.Hits[k]++
@@ -57,6 +58,7 @@ func (r *Run) Hit(k string) {
 }
 
 func (r *Run) Eval(kind, key string) {
+	tick()
 	r.Run.Eval(kind, key)
 	if r.log != nil {
 		r.log.Evals = append(r.log.Evals, [2]string{kind, key})
@@ -64,6 +66,7 @@ func (r *Run) Eval(kind, key string) {
 }
 
 func (r *Run) TieOK() {
+	tick()
 	r.Run.TieOK()
 	if r.log != nil {
 		r.log.TieOK++
@@ -143,6 +146,10 @@ func childMain(dir string) {
 		os.Exit(3)
 	}
 	r := &Run{Run: vlib.NewRun("C04"), log: &childLog{Hits: map[string]int{}}, dir: dir}
+	if spec.Mode == "replay" {
+		r.Run.Replay = spec.Replay
+	}
+	startWatchdog(r) // watchdog.go: a child that stalls reports the input it was working on and exits
 	if f, err := os.OpenFile(dir+"/stdout.log", os.O_CREATE|os.O_WRONLY|os.O_TRUNC, 0644); err == nil {
 		syscall.Dup2(int(f.Fd()), 1) // lib/script prints debug lines to stdout
 	}
@@ -247,9 +254,17 @@ func runChild(r *Run, spec childSpec) {
 	if err == nil {
 		done := make(chan error, 1)
 		go func() { done <- cmd.Wait() }()
-		select {
-		case err = <-done:
-		case <-time.After(limit):
+		deadline := time.After(limit)
+	wait:
+		for {
+			select {
+			case err = <-done:
+				break wait
+			case <-time.After(time.Second):
+				tick() // watchdog.go: the child has a stall watchdog of its own; `limit` judges this wait
+				continue
+			case <-deadline:
+			}
 			hung = true
 			cmd.Process.Signal(syscall.SIGQUIT)
 			select {
@@ -258,6 +273,7 @@ func runChild(r *Run, spec childSpec) {
 				cmd.Process.Kill()
 				err = <-done
 			}
+			break
 		}
 	}
 	lf.Close()
